@@ -132,6 +132,9 @@ enum V {
     Vector(Vec<V>),
     Bytes(Vec<u8>),
     Range(i64, i64), // finite stream `a to b`
+    /// a list-backed stream `stream(xs)` of which the first k items have been consumed (by a slice, a
+    /// `.+` pattern or `drop`): it denotes the stream of the remaining items
+    Adv(Vec<V>, usize, u8),
     StreamInf,
     Func(usize),
     Type(Ty),
@@ -203,6 +206,16 @@ impl V {
             V::Bytes(bs) => format!("bytes([{}])", bs.iter().map(|b| b.to_string()).collect::<Vec<_>>().join(", ")),
             V::Range(a, b) => format!("({} to {})", V::Int(*a as i128).src(), V::Int(*b as i128).src()),
             V::StreamInf => "repeat(1)".into(),
+            V::Adv(xs, k, form) => {
+                let base = format!("stream([{}])", xs.iter().map(|x| x.src()).collect::<Vec<_>>().join(", "));
+                match (form, k) {
+                    (_, 0) => base,
+                    (1, 1) => format!("(switch ({}) case _ .+ advt -> advt)", base),
+                    (1, 2) => format!("(switch ({}) case _ .+ (_ .+ advt) -> advt)", base),
+                    (2, _) => format!("({} drop {})", base, k),
+                    _ => format!("{}[{}:]", base, k),
+                }
+            }
             V::Func(i) => FUNC_SRC[*i % FUNC_SRC.len()].into(),
             V::Type(t) => t.src(),
             V::Inst(s, fs) => format!("S{}({})", s, fs.iter().map(|x| x.src()).collect::<Vec<_>>().join(", ")),
@@ -231,6 +244,7 @@ impl V {
                 (*a..=*b).map(|x| x.to_string()).collect::<Vec<_>>().join(",")
             ),
             V::StreamInf => "stream-inf".into(),
+            V::Adv(xs, k, _) => format!("stream[{}]", xs[(*k).min(xs.len())..].iter().map(|x| x.proto()).collect::<Vec<_>>().join(",")),
             V::Func(i) => format!("F{}", i),
             V::Type(t) => format!("T:{}", t.name()),
             V::Inst(s, fs) => format!("inst:S{}({})", s, fs.iter().map(|x| x.proto()).collect::<Vec<_>>().join(",")),
@@ -248,7 +262,7 @@ impl V {
             V::Dict(_) => "dict",
             V::Vector(_) => "vector",
             V::Bytes(_) => "bytes",
-            V::Range(..) | V::StreamInf => "stream",
+            V::Range(..) | V::StreamInf | V::Adv(..) => "stream",
             V::Func(_) => "func",
             V::Type(_) => "type",
             V::Inst(..) => "struct_instance",
@@ -265,6 +279,7 @@ impl V {
             V::Str(s) => Some(s.chars().map(|c| V::Str(c.to_string())).collect()),
             V::Bytes(bs) => Some(bs.iter().map(|b| V::Int(*b as i128)).collect()),
             V::Range(a, b) => Some((*a..=*b).map(|x| V::Int(x as i128)).collect()),
+            V::Adv(xs, k, _) => Some(xs[(*k).min(xs.len())..].to_vec()),
             V::Dict(kvs) => Some(kvs.iter().map(|(k, _)| k.clone()).collect()),
             _ => None,
         }
@@ -286,6 +301,13 @@ fn gen_num(rng: &mut Rng) -> V {
         _ => V::Int(rng.range(-100, 100) as i128),
     }
 }
+/// `stream(xs)` with a consumed prefix
+fn gen_adv(rng: &mut Rng) -> V {
+    let n = 1 + rng.below(5) as usize;
+    let xs: Vec<V> = (0..n).map(|i| if rng.chance(1, 5) { V::Str("s".into()) } else { V::Int(2 * i as i128 + 1) }).collect();
+    let k = match rng.below(8) { 0 => 0, 1..=4 => 1, 5 | 6 => 2, _ => n }.min(n);
+    V::Adv(xs, k, rng.below(3) as u8)
+}
 fn gen_val(rng: &mut Rng, depth: u32) -> V {
     let top = if depth == 0 { 12 } else { 22 };
     match rng.below(top) {
@@ -294,6 +316,7 @@ fn gen_val(rng: &mut Rng, depth: u32) -> V {
         5 | 6 => V::Str(rng.pick(STRS).to_string()),
         7 => V::Float(*rng.pick(FLOATS)),
         8 => V::Bytes((0..rng.below(4)).map(|_| rng.below(256) as u8).collect()),
+        9 if rng.chance(1, 2) => gen_adv(rng),
         9 => {
             let a = rng.range(-2, 3);
             V::Range(a, a + rng.range(-1, 3))
@@ -697,7 +720,7 @@ impl Gen {
             V::Dict(_) => Ty::Dict,
             V::Vector(_) => Ty::Vector,
             V::Bytes(_) => Ty::Bytes,
-            V::Range(..) | V::StreamInf => Ty::Stream,
+            V::Range(..) | V::StreamInf | V::Adv(..) => Ty::Stream,
             V::Func(_) => Ty::Func,
             V::Type(_) => rng.pick(&[Ty::Type, Ty::Func]).clone(),
             V::Inst(s, _) => {
@@ -1106,6 +1129,12 @@ fn cmp_slots_case(rng: &mut Rng, g: &mut Gen, lit_ok: bool) -> (P, V) {
         1 if ascending_items && n >= 1 => V::Range(1, n as i64),
         2 => V::Str("abcdef".chars().take(n).collect()),
         3 => V::Bytes(nums.iter().map(|x| (*x as u8) % 200).collect()),
+        4 => {
+            let k = 1 + rng.below(2) as usize;
+            let mut xs: Vec<V> = (0..k).map(|_| V::Int(-7)).collect();
+            xs.extend(nums.iter().map(|x| V::Int(*x)));
+            V::Adv(xs, k, rng.below(3) as u8)
+        }
         _ => V::List(nums.iter().map(|x| V::Int(*x)).collect()),
     };
     // operands: a literal sits strictly between / around what the neighbouring slots will receive
@@ -1329,7 +1358,7 @@ fn hist_val(rng: &mut Rng, t: &Ty) -> V {
         Ty::Sat(7) => V::List((0..rng.below(4)).map(|_| V::Int(rng.range(0, 6) as i128)).collect()),
         Ty::Sat(8) => if rng.chance(1, 4) { V::List(vec![V::Int(1), V::Rat(1, 2)]) } else { V::List((0..rng.below(3)).map(|_| V::Int(rng.range(0, 9) as i128)).collect()) },
         Ty::Sat(9) => if rng.chance(1, 4) { V::List(vec![V::Int(1)]) } else { V::List(vec![V::List(vec![V::Int(rng.range(0, 5) as i128)]), V::Int(2)]) },
-        Ty::Stream => if rng.chance(1, 3) { V::List(vec![V::Int(1)]) } else { V::Range(0, rng.range(0, 3)) },
+        Ty::Stream => if rng.chance(1, 3) { V::List(vec![V::Int(1)]) } else if rng.chance(1, 3) { gen_adv(rng) } else { V::Range(0, rng.range(0, 3)) },
         Ty::Vector => if rng.chance(1, 3) { V::List(vec![V::Int(1)]) } else { V::Vector(vec![V::Int(3), V::Rat(1, 2)]) },
         Ty::Sat(6) => match rng.below(5) {
             0 => V::List(vec![]),
@@ -1379,7 +1408,7 @@ fn hist_target(rng: &mut Rng, vars: &[(Ty, V)], avoid: &[usize]) -> (usize, P) {
                     _ => vec![i],
                 }
             }
-            V::Range(..) | V::Vector(_) | V::Bytes(_) => {
+            V::Range(..) | V::Adv(..) | V::Vector(_) | V::Bytes(_) => {
                 if rng.chance(1, 4) { vec![slice(rng)] } else { vec![Ix::I(V::Int(rng.range(-1, 2) as i128))] }
             }
             V::Dict(_) => vec![Ix::I(V::Str(rng.pick(&["k", "j", "z"]).to_string()))],
@@ -2005,6 +2034,57 @@ fn gen_pattern_case(rng: &mut Rng) -> Case {
             };
             arms.push(p);
         }
+        if rng.chance(1, 3) {
+            // arm bodies with side effects that may raise: the body of the first accepting arm runs
+            // exactly once and its error leaves the switch (x7 logs which bodies ran)
+            if rng.chance(1, 2) {
+                g.next = 0;
+                arms.push(if rng.chance(2, 3) { P::Underscore } else { pat_for(&mut g, rng, &v) });
+            }
+            let codes: Vec<&str> = arms.iter().map(|_| *rng.pick(&["lt", "lt", "lo", "lo", "t", "o"])).collect();
+            let body: String = arms
+                .iter()
+                .zip(codes.iter())
+                .enumerate()
+                .map(|(i, (p, c))| {
+                    format!(
+                        " case {} -> ({}{})",
+                        p.src(),
+                        if c.contains('l') { format!("x7 append= {}; ", i) } else { String::new() },
+                        if c.contains('t') { "throw \"boom\"".to_string() } else { format!("[{}, {}]", i, dump) }
+                    )
+                })
+                .collect();
+            let mut env2 = env.clone();
+            env2.push((7, Ty::Any, V::List(vec![])));
+            let sw = match rng.below(3) {
+                0 => format!("(\\switch{})({})", body, v.src()),
+                1 => format!("swf := \\switch{}; swr := try swf({}) catch e -> (if (e == \"boom\") \"B\" else \"N\"); [swr, x7]", body, v.src()),
+                _ => format!("switch ({}){}", v.src(), body),
+            };
+            let src = if sw.starts_with("swf") {
+                format!("{}{}", env_src(&env2), sw)
+            } else {
+                format!("{}swr := try ({}) catch e -> (if (e == \"boom\") \"B\" else \"N\"); [swr, x7]", env_src(&env2), sw)
+            };
+            let req = format!(
+                "switchb {} {} {} {}",
+                K,
+                env_proto(&env2),
+                v.proto(),
+                arms.iter().zip(codes.iter()).map(|(p, c)| format!("{} {}", c, p.proto())).collect::<Vec<_>>().join(" ")
+            );
+            let shape = arms.last().map(|p| p.shape()).unwrap_or_default();
+            return Case {
+                key: format!("switch-body/{}", shape),
+                src,
+                req,
+                switch: false,
+                nontrivial: true,
+                arm: format!("switch-body:{}", codes.join(",")),
+                has_or: arms.iter().any(|p| p.has_or()),
+            };
+        }
         let body: String = arms.iter().enumerate().map(|(i, p)| format!(" case {} -> [{}, {}]", p.src(), i, dump)).collect();
         (
             format!("{}switch ({}){}", env_src(&env), v.src(), body),
@@ -2170,6 +2250,7 @@ fn type_cases(rng: &mut Rng, n_random: usize) -> Vec<(String, String, String, St
         V::Range(1, 3),
         V::Range(1, 2),
         V::Range(3, 1),
+        V::Adv(vec![V::Int(1), V::Int(2), V::Int(3)], 1, 0),
         V::StreamInf,
         V::Func(0),
         V::Func(1),
@@ -2772,6 +2853,50 @@ fn corpus() -> Vec<Case> {
         true,
         false,
     ));
+    // a list-backed stream whose head has been consumed, matched from the other end
+    for form in 0..3u8 {
+        let adv = V::Adv(vec![V::Int(1), V::Int(2), V::Int(3)], 1, form);
+        v.push(mk(
+            "declare/anno>destr:+.",
+            format!("(x0 +. x1) := {}; {}", adv.src(), dump),
+            format!("assign {} E() {} A(Bappend(I0,I1))", K, adv.proto()),
+            false,
+            false,
+        ));
+        v.push(mk(
+            "switch/seq+splat",
+            format!("switch ({}) case ...x0, x1 -> [0, {}] case _ -> [1, {}]", adv.src(), dump, dump),
+            format!("switch {} E() {} S(P(I0),I1) U", K, adv.proto()),
+            true,
+            false,
+        ));
+    }
+    // the body of the arm that matched raises: the error leaves the switch, no other arm runs
+    for (sw, kind) in [
+        ("swr := try (switch (1) case 1 -> (x7 append= 0; throw \"boom\") case _ -> (x7 append= 1; [1, DUMP])) catch e -> (if (e == \"boom\") \"B\" else \"N\"); [swr, x7]", "statement"),
+        ("swr := try ((\\switch case 1 -> (x7 append= 0; throw \"boom\") case _ -> (x7 append= 1; [1, DUMP]))(1)) catch e -> (if (e == \"boom\") \"B\" else \"N\"); [swr, x7]", "lambda"),
+    ] {
+        let mut c = mk(
+            "switch-body/lit",
+            format!("x7: anything = []; {}", sw.replace("DUMP", &dump)),
+            format!("switchb {} E(7,anything,[]) 1 lt V(1) lo U", K),
+            false,
+            false,
+        );
+        c.arm = format!("corpus:switch-body/{}", kind);
+        v.push(c);
+    }
+    {
+        let mut c = mk(
+            "switch-body/anno",
+            format!("x7: anything = []; swr := try (switch (5) case (x0: int) -> (x7 append= 0; throw \"boom\") case (x1: str) -> (x7 append= 1; [1, {}])) catch e -> (if (e == \"boom\") \"B\" else \"N\"); [swr, x7]", dump),
+            format!("switchb {} E(7,anything,[]) 5 lt A(I0,T:int) lo A(I1,T:str)", K),
+            false,
+            false,
+        );
+        c.arm = "corpus:switch-body/no-later-match".into();
+        v.push(c);
+    }
     // a multi-slot comparison needs exactly as many items as slots
     v.push(mk(
         "switch/destr:cmp",
